@@ -210,6 +210,16 @@ def oracle(c, obs):
         for r in res:
             if semi_of(r) is None:
                 return "substitution returned an ill-formed numeral %r" % r
+        # each rule documents which chords it recognises; with ignore_suffix off, substitutes offered for any other chord are
+        # not what the rule promises (diminished-for-diminished: the docstring says unsuffixed 'VI', the code 'VII'; both allowed)
+        if not ig and res:
+            doc = {"substitute_minor_for_major": sf in ("m", "m7") or (sf == "" and n in ("II", "III", "VI")),
+                   "substitute_major_for_minor": sf in ("M", "M7") or (sf == "" and n in ("I", "IV", "V")),
+                   "substitute_diminished_for_diminished": sf in ("dim", "dim7") or (sf == "" and n in ("VI", "VII")),
+                   "substitute_diminished_for_dominant": sf in ("dim", "dim7") or (sf == "" and n in ("VI", "VII")),
+                   "substitute_harmonic": sf in ("", "7")}
+            if not doc.get(name, True):
+                return "%s offered substitutes for a chord the rule is not documented for" % name
         if name == "substitute_minor_for_major":
             return None if all((semi_of(r) - base) % 12 == 3 for r in res) else "minor-for-major root is not a minor third above"
         if name == "substitute_major_for_minor":
